@@ -117,3 +117,11 @@ add("C08",
     "every pair of compatible paths; period-0 rows for stochastic models.",
     "real-number model of floats; 2-3 agents, T<=2, templates as listed",
     "DESIGN.md section 7 C08")
+add("C07",
+    "Template: CrossHair on _create_function_params with symbolic variable roles and function sets; concrete structure comparison of the "
+    "returned template (keys, free arguments, shock array shapes for all dependency orders) with a reference derived from the user "
+    "model only. Routing: symbolic execution of solve on templates with colliding parameter names bound to different symbols and on "
+    "stochastic templates with one symbol per probability entry in several dependency orders; z3 decides every value entry equal to "
+    "the reference in which each function gets the values stored under its own name (as C01).",
+    "real-number model of floats; CrossHair timeout 200 s with refuted twin; templates as listed",
+    "DESIGN.md section 7 C07", technique="CrossHair (z3) on the template builder; symbolic execution of the real JAX pipeline + z3 for routing", engine="symjax+crosshair")
